@@ -70,4 +70,4 @@ let scenario ts =
   let o = ops { rest = ts } in
   if not (valid_ops o) then raise (Bad "value out of range of its type") else o
 let run_line ts = pobs ((if Sys.getenv_opt "C08_OLD" <> None then run_old else run) (scenario ts))
-let spec_line ts os = spec0 (scenario ts) (obs_of os)
+let spec_line ts os = spec (scenario ts) (obs_of os)
